@@ -1,7 +1,7 @@
 From Coq Require Extraction ExtrOcamlBasic.
-From Rpgp Require Import Base.Octets Base.Res Frame.Framing Frame.BodyReader Io.Emitter Frame.PartialWriter Frame.FixedWriter.
+From Rpgp Require Import Base.Octets Base.Res Frame.Framing Frame.BodyReader Io.Emitter Frame.PartialWriter Frame.FixedWriter Frame.Rewrite.
 Extraction Language OCaml.
 Separate Extraction Byte.to_N Byte.of_N
   Framing.deframe Framing.frame_new Framing.frame_old Framing.emit_partial Framing.emit_fixed
   Framing.legal_new Framing.legal_old Framing.dec_new_len Framing.enc_new_len Framing.enc_header_new Framing.enc_header_old Framing.dec_header
-  BodyReader.br_run BodyReader.body_spec PartialWriter.pw_run FixedWriter.fw_run.
+  BodyReader.br_run BodyReader.body_spec PartialWriter.pw_run FixedWriter.fw_run Rewrite.rewrite.
